@@ -43,6 +43,9 @@ def c5 : Bytes := oneBit 124
 
 abbrev Cipher := Bytes → Bytes → Bytes
 
+/-- the kernel `E` is a block cipher on 128-bit blocks under 128-bit keys (clause 5.1) -/
+def BlockCipher (E : Cipher) : Prop := ∀ k x : Bytes, k.length = 16 → x.length = 16 → (E k x).length = 16
+
 scoped infixl:65 " ⊻ " => xorBytes
 
 /-- OP_C = OP ⊻ E[OP]_K -/
